@@ -265,7 +265,9 @@ TwinFindings(tw, post) ==
 DefApplies(T, j) ==
   LET m == T.mg[j]
   IN /\ ~(m.fill /\ m.ha) /\ ~(m.ha /\ m.life >= 0 /\ m.tf # 0)
-     /\ m.late = 0     \* a manager created later starts from what the default one still holds
+     \* a manager created later starts from what the default one still holds: that is the whole raw
+     \* stream only while the default manager neither collapses, converts nor trims
+     /\ (m.late = 0 \/ (m.src # 0 /\ T.mg[m.src].tf = 0 /\ ~T.mg[m.src].ha /\ T.mg[m.src].life < 0))
 DefFindings(T, j, k, postj) ==
   IF ~DefApplies(T, j) \/ k = 0 THEN {}
   ELSE LET cfg == MCfg(T.mg[j])
@@ -468,7 +470,8 @@ StepFindings(T, e, post) ==
                                  /\ (~KVSeqSame(mid.cs, post[j]))
                               THEN {<<"sideeffect", j, e.op, 0>>} ELSE {})
                         \cup StateFindings(T, ra, j, post[j]))
-                  \cup DefFindings(T, j, IF e.op \in {"new", "append"} THEN e.b ELSE kc, post[j])
+                  \cup (IF j \in MgsAfter(T, e)        \* (a manager that is created later does not exist yet)
+                        THEN DefFindings(T, j, IF e.op \in {"new", "append"} THEN e.b ELSE kc, post[j]) ELSE {})
         : j \in 1..Len(T.mg) }
   \cup UNION { IF e.bt[q].clause = "untrimmed" /\ ~(ok15 /\ LookbackOK(T, e, post))
               THEN {<<"ok", e.bt[q].j, "untrimmed_skipped", 0>>}
